@@ -227,8 +227,21 @@ def simplify_math_iterators(source: str) -> str:
         if node.func.id != "sum":
             # The closed forms below are sums, they do not apply to len()
             continue
+        unit_step_range_template = ast.Call(
+            func=ast.Name(id="range"), args=([object], [object, object], [object, object, ast.Constant(value=1)])
+        )
+        constant_range_template = ast.Call(func=ast.Name(id="range"), args={ast.Constant(value=int)})
+        if any(
+            not core.match_template(rng, (unit_step_range_template, constant_range_template))
+            for rng in core.walk(arg, ast.Call(func=ast.Name(id="range")))
+        ):
+            # A step other than 1 can only be handled when the bounds are known
+            continue
+
         if core.match_template(arg, ast.Call(func=ast.Name(id="range"))):
             if any((node is not arg for node in core.walk(arg, (ast.Attribute, ast.Call)))):
+                continue
+            if not core.match_template(arg, unit_step_range_template):
                 continue
             yield node, _sum_range(arg)
 
